@@ -2,7 +2,7 @@
 from engine.facts import CannotDecide, callee_is, strip_generics, path_matches
 from engine import cfg
 from engine.prov import const_int
-from .common import Table, client_dispatch_poll, reachable_local_fns, same_root, norm_path, guarded_by_variant, find_calls, loc
+from .common import Table, client_dispatch_poll, reachable_local_fns, same_root, norm_path, guarded_by_variant, find_calls, loc, message_send_sites
 
 EXPLANATION = (
     "Static pairing argument for request/response matching, decided on type-checked MIR of the real build: "
@@ -151,9 +151,12 @@ def run(ctx):
     poll = client_dispatch_poll(F)
     reach = reachable_local_fns(F, poll)
     R.count('functions_analysed', len(reach))
-    req_ctor = [(f, i, j, s) for f, i, j, s in F.all_aggregates('ClientMessage', 'Request')]
-    if not req_ctor:
-        R.ob('C01.2', ('dispatch poll', 'request send site'), False, 'no site constructs ClientMessage::Request', [poll.loc(poll.d)])
+    sends = message_send_sites(F, P, reach, 'Request')
+    if not sends:
+        R.ob('C01.2', ('dispatch poll', 'request send site'), False, 'no site hands a ClientMessage::Request to the transport', [poll.loc(poll.d)])
+    ctors = [(f, s) for f, i, j, s in F.all_aggregates('ClientMessage', 'Request')]
+    R.ob('C01.2', ('ClientMessage::Request', 'constructed only for the dispatch write path'), all(any(f.id == g.id for g in reach) for f, s in ctors) and len(ctors) == len({(P.unbound(x[3])) for x in sends}),
+         'requests are built only to be written by the dispatch', [f.loc(s) for f, s in ctors])
     insert_m = table.one(table.inserting(), 'inserting')
     # which parameter of the inserting method is the key / the sender?
     key_param = None
@@ -171,39 +174,32 @@ def run(ctx):
             sender_param = k
     if sender_param is None:
         raise CannotDecide('client table insert: sender parameter not identified')
-    for f, i, j, s in req_ctor:
-        ff = F.enclosing_item(f)
-        in_dispatch = any(g.id == f.id for g in reach)
-        R.ob('C01.2', ('ClientMessage::Request', 'constructed in dispatch', ff.npath), in_dispatch,
-             'requests are built only by the dispatch write path', [f.loc(s)])
-        if not in_dispatch:
-            continue
+    for g, sbb, st_, agg in sends:
         # the Request payload
-        inner = P._field(('agg', f.id, i, j), '0')
+        inner = P._field(agg, '0')
         idt = None
         for r, p in P.root(inner):
-            if r[0] == 'agg' and path_matches(P._agg_rv(r)['adt'], 'Request'):
+            ru = P.unbound(r)
+            if ru[0] == 'agg' and path_matches(P._agg_rv(ru)['adt'], 'Request'):
                 idt = P._field(r, 'id')
         if idt is None:
-            R.ob('C01.2', ('dispatch poll', 'wire id'), False, 'cannot see the Request literal sent', [f.loc(s)])
+            R.ob('C01.2', ('dispatch poll', 'wire id'), False, 'cannot see the Request literal sent', [g.loc(st_)])
             continue
-        ins = find_calls(F, [f], insert_m.npath.split('::')[-1])
-        ins = [(g, bb, t) for g, bb, t in ins if F.callee_fn(t) is insert_m]
+        ins = [(b2, t2) for b2, t2 in g.calls() if F.callee_fn(t2) is insert_m]
         R.ob('C01.2', ('dispatch poll', 'table insert at request send site'), len(ins) >= 1,
-             'the body that builds the request also registers it in the in-flight table', [f.loc(s)])
-        for g, bb, t in ins:
-            kt = P.operand(g, t['args'][key_param - 1])
-            st = P.operand(g, t['args'][sender_param - 1])
+             'the body that writes the request also registers it in the in-flight table', [g.loc(st_)])
+        for bb, t in ins:
+            kt = P.operand(g, t['args'][key_param - 1], at=bb)
+            st = P.operand(g, t['args'][sender_param - 1], at=bb)
             common = same_root(P, idt, kt)
             ok_key = bool(common) and all(norm_path(px) == norm_path(py) for _, px, py in common) and len(P.root(idt)) == len(common)
             R.ob('C01.2', ('dispatch poll', 'wire id == table key'), ok_key,
-                 'Request.id and the in-flight table key are the same value of the dequeued request', [f.loc(s), g.loc(t)],
+                 'Request.id and the in-flight table key are the same value of the dequeued request', [g.loc(st_), g.loc(t)],
                  'wire id: %s; key: %s' % ([P.describe(r) + str(norm_path(p)) for r, p in P.root(idt)], [P.describe(r) + str(norm_path(p)) for r, p in P.root(kt)]))
             cs = same_root(P, idt, st)
             ok_s = bool(cs) and all(norm_path(px)[:-1] == norm_path(py)[:-1] for _, px, py in cs)
             R.ob('C01.2', ('dispatch poll', 'stored sender belongs to the same request'), ok_s,
                  'the completion sender stored under the key is a field of the same dequeued request', [g.loc(t)])
-            # the dequeued request is an item of the request queue
             q_ok = all(P.is_call(r, 'mpsc::Receiver::poll_recv') for r, p in P.root(kt))
             R.ob('C01.2', ('dispatch poll', 'request comes from the request queue'), q_ok,
                  'the transmitted request is an item received from the handle->dispatch queue', [g.loc(t)])
